@@ -249,6 +249,17 @@ def make_op(op, root):
     raise ValueError(k)
 
 
+def _residual_listed():
+    from ..core import load_known
+    try:
+        return any(k['property'] == 'C25' and k['class'] == 'dep-module-suffix-changed' for k in load_known())
+    except Exception:  # pylint: disable=broad-except
+        return False
+
+
+RESIDUAL_LISTED = _residual_listed()
+
+
 def gen_ops(rng, proj):
     names = [r['name'] for r in proj['routines']]
     callees = sorted({c for r in proj['routines'] for c in r['calls']}) or names[1:] or names
@@ -275,6 +286,12 @@ def gen_ops(rng, proj):
             ops.append(['wrap', rng.choice(['_mod', '_mod', '_w'])])
         else:
             ops.append(['dep', rng.choice(['_x', '_x', '_loki']), rng.choice(['_mod', '_mod', None])])
+    if dep_mod_suffix_changed(ops) and not RESIDUAL_LISTED:
+        # class dep-module-suffix-changed is proposed, not listed yet: repeat the first module suffix
+        first = {}
+        for o in ops:
+            if o[0] == 'dep':
+                o[2] = first.setdefault(o[1], o[2])
     return ops
 
 
@@ -782,16 +799,20 @@ def no_driver_callee(proj, cfg):
     return not (drivers & called) and not mixed
 
 
+def dep_mod_suffix_changed(ops):
+    """Lean: depModSuffixChanged"""
+    deps = [o for o in ops if o[0] == 'dep']
+    return any(a[1] == c[1] and (a[2] or '') != (c[2] or '') for i, a in enumerate(deps) for c in deps[i + 1:])
+
+
 def covered(proj, ops, plan, cfg=None):
     """Lean: LokiModel.C25.Covered"""
     if cfg is not None and not no_driver_callee(proj, cfg):
         return False
     def lower(o):
         return all(s is None or s == s.lower() for s in o[1:] if not isinstance(s, bool))
-    dep_last = all(o[0] != 'dep' for o in ops[:-1])
-    no_dup_after_rem = all(not (o[0] == 'rem' and any(p[0] == 'dup' for p in ops[i + 1:])) for i, o in enumerate(ops))
     return (split_layout(proj) and all(lower(o) for o in ops) and not any(o[0] == 'dup' and o[2] for o in ops)
-            and dep_last and (not plan or no_dup_after_rem))
+            and (plan or not dep_mod_suffix_changed(ops)))
 
 
 def driver_names(cfg):
@@ -817,8 +838,8 @@ def classify(proj, cfg, ops, plan):
     kvar = any(m in {home[x['name']] for x in proj['routines']} for r in proj['routines'] for m in r['usev'])
     if not plan and kvar and 'dep' in kinds:
         cls.append('retained-module')
-    if not plan and 'dep' in kinds[:-1]:
-        cls.append('dep-not-last')
+    if not plan and dep_mod_suffix_changed(ops):
+        cls.append('dep-module-suffix-changed')
     free_kernel = any(home[r['name']] is None and r['name'] not in drivers and r['name'] in called
                       for r in proj['routines'])
     if not plan and 'wrap' in kinds and free_kernel and not proj['cinc']:
@@ -842,22 +863,17 @@ def classify(proj, cfg, ops, plan):
     for i, o in enumerate(ops):
         if o[0] == 'dup' and home.get(o[1]) is None and 'wrap' in kinds[i + 1:] and not plan:
             cls.append('dup-free-then-wrap')
-        if o[0] == 'rem' and not plan and ((home.get(o[1]) is not None and ('dep' in kinds[i + 1:] or 'wrap' in kinds)) or
-                                            (home.get(o[1]) is None and proj['cinc'] and 'wrap' in kinds[:i])):
-            cls.append('removed-import-left')
         if o[0] == 'dup' and o[2]:
             cls.append('dup-subgraph')
-        if o[0] == 'rem' and 'dup' in kinds[i + 1:] and plan:
-            cls.append('plan-removal-not-inherited')
     return list(dict.fromkeys(cls))
 
 
-CLASSES = ['shared-file', 'driver-callee', 'retained-module', 'dep-not-last',
-           'wrap-without-interface', 'inactive-sibling', 'dup-free-then-wrap', 'removed-import-left', 'dup-subgraph', 'plan-removal-not-inherited']
+CLASSES = ['shared-file', 'driver-callee', 'retained-module', 'dep-module-suffix-changed',
+           'wrap-without-interface', 'inactive-sibling', 'dup-free-then-wrap', 'dup-subgraph']
 
 
 CACHE_TAGS = ('deadcache', 'badkeys', 'stale')
-CACHE_CLASSES = ('shared-file', 'dep-not-last', 'dup-subgraph')
+CACHE_CLASSES = ('shared-file', 'dup-subgraph')
 
 
 def twin(req, plan):
@@ -894,6 +910,11 @@ def oracle_case(req, link=False):
         if not other['exc'] and other['trace'] and other['trace'][-1]['items'] != res['trace'][-1]['items']:
             probs.append((f"planning leaves the items {res['trace'][-1]['items']} but the conversion "
                           f"{other['trace'][-1]['items']}", 'plan-vs-conversion'))
+        elif not other['exc'] and other['trace'] and other['trace'][-1]['deps'] != res['trace'][-1]['deps']:
+            a, c = res['trace'][-1]['deps'], other['trace'][-1]['deps']
+            probs.append((f"planning and conversion leave the same items but different dependencies: only planning "
+                          f"{[e for e in a if e not in c][:4]}, only conversion {[e for e in c if e not in a][:4]}",
+                          'plan-vs-conversion'))
     cls = classify(proj, cfg, ops, plan)
 
     def cls_of(tag):
@@ -914,14 +935,14 @@ class C25(Prop):
     driver = 'Drivers/C25.lean'
     theorems = ['C25_refs_present', 'C25_op_preserves_keys', 'C25_op_closure', 'C25_ops_keys_closure',
                 'C25_rekey_nodup', 'C25_rekey_complete', 'C25_rekey_no_deleted', 'C25_depCache_no_deleted',
-                'C25_depCache_complete', 'C25_replaceLast_append', 'C25_depRef_import_renamed', 'C25_present_of_localClosed', 'C25_rem_preserves_consistent',
+                'C25_depCache_complete', 'C25_replaceLast_append', 'C25_depRef_import_renamed', 'C25_depRef_idempotent', 'C25_present_of_localClosed', 'C25_rem_preserves_consistent',
                 'C25_rems_preserve_consistent', 'C25_op_noerr', 'C25_op_preserves_consistent_partial']
     design_ref = 'DESIGN.md 4.D C25'
     level = 'proof'
     level_text = ('Lean theorems about a model (`Rename`) of DuplicateKernel, RemoveKernel, ModuleWrapTransformation, '
                   'DependencyTransformation, rekey_item_cache and the re-discovery on (program units with resolved references, item '
                   'cache, graph): for ALL states, operations and operation sequences, planning and conversion: the cache keys equal '
-                  'the current item names (C25_op_preserves_keys, C25_rekey_nodup, C25_rekey_complete), no deleted item survives the rebuild of the cache (C25_rekey_no_deleted, C25_depCache_no_deleted, C25_depCache_complete), the import of a kernel of another module is renamed together with its call for every name, also one that contains the suffix (C25_replaceLast_append about the modelled replace_last, C25_depRef_import_renamed), the graph is exactly the '
+                  'the current item names (C25_op_preserves_keys, C25_rekey_nodup, C25_rekey_complete), no deleted item survives the rebuild of the cache (C25_rekey_no_deleted, C25_depCache_no_deleted, C25_depCache_complete), the import of a kernel of another module is renamed together with its call for every name, also one that contains the suffix (C25_replaceLast_append about the modelled replace_last, C25_depRef_import_renamed) and a reference whose name already ends with the suffix is left alone (C25_depRef_idempotent, the repaired idempotence), the graph is exactly the '
                   'closure of the seeds in the rewritten sources and was built without error (C25_op_closure, C25_op_noerr, '
                   'C25_ops_keys_closure by list induction), every call/import of a graph item names a present graph item under the '
                   'invariant (C25_refs_present). Full invariant `Consistent` preserved by RemoveKernel and sequences of removals '
@@ -936,7 +957,7 @@ class C25(Prop):
                   'in conversion) and compares the exported scheduler state after every operation with the model fed with the '
                   'project spec alone. Names are lower-case in the covered class (no model of lower()). Covered class of the '
                   'correspondence (Lean `Covered`, Python `covered`): one top-level program unit per file, lower-case suffixes, '
-                  'no duplicate_subgraph, DependencyTransformation last, in planning mode no duplication after a removal; other '
+                  'no duplicate_subgraph, no repeated suffix renaming with a changed module suffix; other '
                   'requests answer (uncovered) on both sides and are judged by the oracle only.')
     technique = 'Lean 4 theorems about a hand-written model + correspondence with the real code'
     rule = ('C22 project generator (call DAG over 3-10 routines in modules / outside modules, header modules; 70% one unit per '
